@@ -179,6 +179,9 @@ type SessionRun struct {
 	ProxyErrs []string
 }
 
+// DebugHook, when set, is called after every session (debugging aid).
+var DebugHook func(pw *PgWorld, run *SessionRun, script []Stmt)
+
 // RunSession runs one scripted client session through a fresh proxy instance
 // against the world's database. Deliveries are chosen from the tape.
 func (pw *PgWorld) RunSession(clientID string, script []Stmt) *SessionRun {
@@ -313,6 +316,9 @@ func (pw *PgWorld) RunSession(clientID string, script []Stmt) *SessionRun {
 		got := s.deliver(k)
 		w.Event(0, "deliver "+s.name, fmt.Sprintf("%d/%d", got, n))
 		time.Sleep(time.Microsecond)
+	}
+	if DebugHook != nil {
+		DebugHook(pw, run, script)
 	}
 	if run.Steps >= pw.maxSteps {
 		w.Res.Cut = true
